@@ -67,6 +67,11 @@ def build(family, n, cold):
                 with next_rule(x.n < 0):
                     Add(v, inference(T1)(p=x))
         qs = {1: q, 2: q}
+    elif family == "bare_var":
+        # two queries share a variable over ints; one uses the variable itself as a condition (its last candidate is falsy)
+        ints = [3, 7, 2, 0][:max(n, 3)] if n >= 4 else [3, 2, 0]
+        x = let(int, (i for i in ints) if cold else list(ints), name="x")
+        qs = {1: an(entity(x, and_(x < 5, x))), 2: an(entity(x, x >= 1, x <= 7))}
     elif family == "independent":
         objs2 = [E(i + 1) for i in range(n)]
         y = let(E, (o for o in objs2) if cold else list(objs2), name="y")
@@ -77,6 +82,8 @@ def build(family, n, cold):
 
 
 def project(v, x):
+    if isinstance(v, int):
+        return "i" + str(v)
     if isinstance(v, E):
         return str(v.n)
     if isinstance(v, (T0, T1)):
@@ -88,6 +95,15 @@ def project(v, x):
 
 
 def handle(case):
+    # what each evaluation returns when it runs alone on a fresh identical query over fresh identical domains
+    fresh, fx = build(case["family"], case["n"], not case["warm"])
+    alone = {}
+    for i in (1, 2):
+        f2, fx2 = build(case["family"], case["n"], not case["warm"])
+        try:
+            alone[i] = [project(v, fx2) for v in f2[i].evaluate()]
+        except Exception as ex:
+            alone[i] = [type(ex).__name__]
     qs, x = build(case["family"], case["n"], not case["warm"])
     if case["warm"]:
         for q in {id(q): q for q in qs.values()}.values():
@@ -111,7 +127,7 @@ def handle(case):
                 obs.append("stop")
             except Exception as ex:
                 obs.append(type(ex).__name__)
-    return {"obs": obs}
+    return {"obs": obs, "alone": {str(k): v for k, v in alone.items()}}
 
 
 if __name__ == "__main__":
